@@ -258,6 +258,14 @@ func serve(s spec, conn net.Conn, hs ws.Handshake, herr error, t *transcript) {
 	defer conn.Close()
 	t.add("S handshake err=%v protocol=%q ext=%s", herr, hs.Protocol, extString(hs.Extensions))
 	if herr != nil {
+		if s.fault == 4 {
+			// the application logs the refusal LATER (a log pipeline, an error channel): other sessions shake hands
+			// in the meantime; the error is this session's, whenever it is formatted
+			for i := 0; i < 2+s.id%5; i++ {
+				runtime.Gosched()
+			}
+			t.add("S refused offer, formatted later: %v", herr)
+		}
 		return
 	}
 	st := ws.StateServerSide
@@ -398,6 +406,14 @@ func negotiator(t *transcript) func(httphead.Option) (httphead.Option, error) {
 	}
 }
 
+// badOffer: a permessage-deflate offer whose server_max_window_bits value (16 + the session's id: unique among the
+// sessions of a case) is out of range; the server's negotiator refuses it with an error that names the value.
+func badOffer(s spec) []httphead.Option {
+	o := httphead.Option{Name: []byte("permessage-deflate")}
+	o.Parameters.Set([]byte("server_max_window_bits"), []byte(fmt.Sprint(16+s.id)))
+	return []httphead.Option{o}
+}
+
 func offerList() []httphead.Option {
 	o := httphead.Option{Name: []byte("permessage-deflate")}
 	o.Parameters.Set([]byte("client_max_window_bits"), nil)
@@ -529,6 +545,9 @@ func runSession(s spec) *transcript {
 		d.Extensions = s.shared
 		if d.Extensions == nil {
 			d.Extensions = offerList()
+		}
+		if s.fault == 4 {
+			d.Extensions = badOffer(s)
 		}
 	}
 	var conn net.Conn
@@ -877,6 +896,9 @@ func specsFor(c *mon.C, n int, mix int) []spec {
 			s.fault = 1 + (i/5)%2
 			s.faultAt = 1 + int(s.seed)%(s.nmsg-1)
 		}
+		if s.fault == 0 && compressedMode(s) && i%6 == 4 && n > 4 && !(s.wss && s.tlsMode == 3) {
+			s.fault = 4 // its client offers permessage-deflate with a parameter value no server can take: refused
+		}
 		out = append(out, s)
 	}
 	return out
@@ -971,6 +993,25 @@ func subSessions() mon.Sub {
 					// a session whose own TLS configuration trusts nobody: it never gets past the TLS handshake
 					if !strings.Contains(strings.Join(tc, "\n"), "unknown authority") {
 						c.Fail("tls/own-configuration-not-applied", "a session whose Dialer.TLSConfig trusts no authority completed the TLS handshake: "+specs[i].String(), map[string]interface{}{"client": tc, "server": ts})
+						return
+					}
+					continue
+				}
+				if specs[i].fault == 4 {
+					faulty++
+					own := fmt.Sprintf("%q", fmt.Sprint(16+specs[i].id))
+					seen := 0
+					for _, l := range ts {
+						if strings.HasPrefix(l, "S handshake err=") || strings.HasPrefix(l, "S refused offer") {
+							seen++
+							if !strings.Contains(l, own) || strings.Contains(l, "err=<nil>") {
+								c.Fail("error-text/not-the-sessions-own-offer", "the error a server session got for its client's malformed extension offer does not name that offer's value "+own+": "+l, map[string]interface{}{"session": specs[i].String(), "server": ts})
+								return
+							}
+						}
+					}
+					if seen == 0 {
+						c.Fail("harness/refused-offer-not-reached", "the session with a malformed offer never reported its handshake", map[string]interface{}{"session": specs[i].String(), "server": ts, "client": tc})
 						return
 					}
 					continue
